@@ -41,6 +41,9 @@ CHECKS = {
     'C17': dict(cat='other', tech='symbolic execution of the MIR of rtree_nn.rs leaf functions -> SMT over the reals',
                 text='Solver-decided leaf lemmas: wrapped leaf distance = distance to the reported image; envelope distance is an admissible lower bound and zero iff inside; heap order is the reversed distance order; the initial heap holds exactly the 3^d shifts; shift absent iff zero. The best-first loop over rstar nodes and rstar itself are not encoded.',
                 note=TRUST_M + '; rstar trusted', ref='DESIGN.md 4 C17'),
+    'C18': dict(cat='other', tech='Kani/CBMC inductive step on SimpleCycle + symbolic execution of the MIR of clip_by_plane/compute_boundary with a symbolic plane -> SMT',
+                text='Kani: one try_extend step from an arbitrary valid cycle over 6 planes (also plane indices 62..67) keeps it a valid cycle, +-1 length, Err leaves the state untouched (covers histories of any length). Engine M: the real clip_by_plane on the initial cube cell (duals from the MIR of init) and a tetrahedron with a symbolic clipping plane and uninterpreted exact-predicate signs: removal rule, (cur,next,new) vertices along the cycle, closed polytope, result a function of the removed set only across seeded storage orders/rotations (at most 1 tie per path quick, 3 thorough). Volumes (float sums) and cells beyond the catalogue are outside.',
+                note=TRUST_M + '; ' + TRUST_K, ref='DESIGN.md 4 C18'),
     'C19': dict(cat='other', tech='symbolic execution of each helper\'s MIR -> polynomial identities over R decided by z3 (cvc5 / z3-4.8 cross-check), native replay of counterexamples',
                 text='Solver-decided for all real arguments under the documented non-degeneracy: the defining equations of intersect_planes, Plane::project_onto(_intersection), signed_volume_tet, signed_area_tri, Sphere::from_{two,three,four}_points, Sphere::extend and the float in-sphere polynomial hold as identities of the arithmetic the compiler sees (f64 read as exact reals; rounding and conditioning outside the claim).',
                 note=TRUST_M, ref='DESIGN.md 4 C19'),
